@@ -59,7 +59,12 @@ impl<T: RealNumber> LBFGS<T> {
             let dxi = &state.dx_history[i];
             let dgi = &state.dg_history[i];
             let scaling = dxi.dot(dgi) / dgi.abs().pow_mut(T::two()).sum();
-            state.s.copy_from(&state.twoloop_q.mul_scalar(scaling));
+            if scaling.is_finite() && scaling > T::zero() {
+                state.s.copy_from(&state.twoloop_q.mul_scalar(scaling));
+            } else {
+                // the latest curvature pair was skipped (dx.dg = 0): no initial scaling
+                state.s.copy_from(&state.twoloop_q);
+            }
         } else {
             state.s.copy_from(&state.twoloop_q);
         }
